@@ -40,7 +40,7 @@ def run(m, tier):
         env = dict(os.environ, ARTAP_TREE=d, VERIF_EVIDENCE_DIR=os.path.join(d, "ev"),
                    VERIF_REPLAY_DIR=os.path.join(d, "rp"))
         env.setdefault("VERIF_SEED", "0")
-        p = subprocess.run([os.path.join(VERIF, "check"), m["property"], "--tier", tier],
+        p = subprocess.run([os.path.join(VERIF, "check"), m["property"], "--tier", m.get("tier", tier)],
                            env=env, capture_output=True, text=True, timeout=3600)
         out = p.stdout
         if p.returncode == 1 and "VIOLATION property=%s" % m["property"] in out:
